@@ -908,6 +908,180 @@ def run_c18(ctx):
     return viol
 
 
+# ------------------------------------------------------------------ C11
+def c11_cov(a, b, out):
+    dx, dy = b[0] - a[0], b[1] - a[1]
+    L = dx * dx + dy * dy
+    def proj(u):
+        if L == 0:
+            return F(0)
+        return max(F(0), min(F(1), F((u[0] - a[0]) * dx + (u[1] - a[1]) * dy, L)))
+    cov = []
+    for p in out:
+        for i in range(len(p) - 1):
+            u, v = p[i], p[i + 1]
+            if geom.dist2_seg(tuple(a), tuple(b), (F(u[0]), F(u[1]))) <= 1 and geom.dist2_seg(tuple(a), tuple(b), (F(v[0]), F(v[1]))) <= 1:
+                tu, tv = proj(u), proj(v)
+                cov.append((min(tu, tv), max(tu, tv)))
+    return cov
+
+
+def c11_confirm(rect, lines, out):
+    l, t, r, b = rect
+    sides = [((l, t), (r, t)), ((r, t), (r, b)), ((r, b), (l, b)), ((l, b), (l, t))]
+    for line in lines:
+        for i in range(len(line) - 1):
+            a, bb = line[i], line[i + 1]
+            if a == bb:
+                continue
+            cov = c11_cov(a, bb, out)
+            ts = set(F(k, 240) for k in range(241))
+            for lo, hi in cov:
+                ts.update([lo, hi])
+            for tt in sorted(ts):
+                qq = (a[0] + tt * (bb[0] - a[0]), a[1] + tt * (bb[1] - a[1]))
+                if geom.min_dist2(sides, qq) <= 4:
+                    continue
+                inside = l < qq[0] < r and t < qq[1] < b
+                covered = any(lo <= tt <= hi for lo, hi in cov)
+                if inside != covered:
+                    return {'segment': [a, bb], 't': str(tt), 'point': [str(qq[0]), str(qq[1])], 'inside': inside, 'covered': covered}
+    return None
+
+
+def run_c11(ctx):
+    n = _tier(ctx, 12000, 300000)
+    results, meta, summary = _stream(ctx, 'c11', n, 'none', _tier(ctx, 600, 3600))
+    _merge_dist(ctx, summary)
+    ent = lambda m: {'rect': m['rect'], 'lines': m['lines']}
+    viol = []
+    for d in summary.get('direct_failures') or []:
+        e = ent(d)
+        viol.append({'key': fw.input_key(e), 'kind': d.get('kind'), 'text': 'RectClipLinesPaths64 rect %s lines %s: %s %s' % (d['rect'], str(d['lines'])[:200], d.get('kind'), d.get('panic', '')), 'detail': {'corpus_entry': e, 'out': d.get('out')}})
+    seen = set()
+    for cid, res in results.items():
+        m = meta[cid]
+        ctx['evaluations'] += 1
+        entry = ent(m)
+        key = fw.input_key(entry)
+        if m['out']:
+            seen.add(key)
+        if len(ctx['samples']) < 3 and m['out']:
+            ctx['samples'].append({'rect': m['rect'], 'lines': m['lines'], 'out': m['out'], 'verdict': res.split()[0]})
+        if res.startswith('OK'):
+            continue
+        out = m['out']
+        l, t, r, b = m['rect']
+        v = {'key': key, 'kind': 'rect-lines', 'detail': {'corpus_entry': entry, 'out': out, 'checker': res}}
+        if 'vertex-outside' in res:
+            v['text'] = 'rect %s: an output vertex lies more than 1 unit outside the rectangle: %s' % (m['rect'], out)
+        elif 'vertex-off' in res:
+            v['text'] = 'rect %s: an output vertex is more than 1 unit from every input segment (lines %s, output %s)' % (m['rect'], str(m['lines'])[:200], str(out)[:200])
+        else:
+            conf = c11_confirm(m['rect'], m['lines'], out)
+            v['detail']['confirmed'] = conf
+            if conf:
+                v['text'] = 'rect %s: point %s of input segment %s (t=%s), > 2 units from the rectangle boundary, is %s the rectangle but %s by the result %s' % (
+                    m['rect'], conf['point'], conf['segment'], conf['t'], 'inside' if conf['inside'] else 'outside', 'covered' if conf['covered'] else 'not covered', str(out)[:200])
+            else:
+                v['text'] = 'rectangle-line certificate rejected (%s) for input key %s' % (res[:80], key)
+                v['no_input'] = True
+        viol.append(v)
+    ctx['nontrivial'] += len(seen)
+    return viol
+
+
+# ------------------------------------------------------------------ C12
+def open_coverage_differs(m):
+    """exact comparison of what two open solutions cover of the open subject lines, away from the closed input edges"""
+    band = geom.closed_edges(m['subject']) + geom.closed_edges(m['clip'])
+    for line in m['open_subjects']:
+        for i in range(len(line) - 1):
+            a, b = line[i], line[i + 1]
+            if a == b:
+                continue
+            c1, c2 = c11_cov2(a, b, m['open_history']), c11_cov2(a, b, m['open_fresh'])
+            ts = set(F(k, 120) for k in range(121))
+            for lo, hi in c1 + c2:
+                ts.update([lo, hi])
+            for tt in sorted(ts):
+                qq = (a[0] + tt * (b[0] - a[0]), a[1] + tt * (b[1] - a[1]))
+                d2 = geom.min_dist2(band, qq)
+                if d2 is not None and d2 <= 4:
+                    continue
+                k1, k2 = any(lo <= tt <= hi for lo, hi in c1), any(lo <= tt <= hi for lo, hi in c2)
+                if k1 != k2:
+                    return {'segment': [a, b], 't': str(tt), 'point': [str(qq[0]), str(qq[1])], 'covered_after_history': k1, 'covered_by_fresh_engine': k2}
+    return None
+
+
+def c11_cov2(a, b, out):
+    # as c11_cov with the sqrt(2) tolerance used for sweep intersections
+    dx, dy = b[0] - a[0], b[1] - a[1]
+    L = dx * dx + dy * dy
+    def proj(u):
+        if L == 0:
+            return F(0)
+        return max(F(0), min(F(1), F((u[0] - a[0]) * dx + (u[1] - a[1]) * dy, L)))
+    cov = []
+    for p in out:
+        for i in range(len(p) - 1):
+            u, v = p[i], p[i + 1]
+            if geom.dist2_seg(tuple(a), tuple(b), (F(u[0]), F(u[1]))) <= 2 and geom.dist2_seg(tuple(a), tuple(b), (F(v[0]), F(v[1]))) <= 2:
+                tu, tv = proj(u), proj(v)
+                cov.append((min(tu, tv), max(tu, tv)))
+    return cov
+
+
+def run_c12(ctx):
+    n = _tier(ctx, 3000, 60000)
+    results, meta, summary = _stream(ctx, 'c12', n, 'none', _tier(ctx, 600, 3600))
+    _merge_dist(ctx, summary)
+    viol, seen = [], set()
+    for d in summary.get('direct_failures') or []:
+        e = {k: d.get(k) for k in ('engine', 'history', 'g1', 'g2', 'd1', 'd2', 'jt')}
+        kk = d.get('kind', '')[:60]
+        if kk in seen:
+            continue
+        seen.add(kk)
+        viol.append({'key': fw.input_key(e), 'kind': 'history', 'text': '%s: %s (history of %d operations)' % (d.get('engine'), d.get('kind'), len(d.get('history') or [])),
+                     'detail': {'corpus_entry': e, 'failure': {k: d[k] for k in d if k not in ('history',) and len(str(d[k])) < 2000}}})
+    nt = 0
+    for cid, res in results.items():
+        m = meta[cid]
+        if 'calls' in m:
+            ctx['evaluations'] += int(m['calls'])
+            nt += 1
+            if len(ctx['samples']) < 2:
+                ctx['samples'].append({'history': m.get('history') or m.get('offset_history')})
+            continue
+        ctx['evaluations'] += 1
+        entry = {'history': m['history'], 'engine_D': m['engine_D']}
+        key = fw.input_key(entry)
+        if m.get('open_history') is not None:
+            od = open_coverage_differs(m)
+            if od:
+                viol.append({'key': key, 'kind': 'history-open', 'text': 'open solution after this history differs from a fresh engine\'s on the same paths: %s' % od,
+                             'detail': {'corpus_entry': entry, 'difference': od, 'open_history': m['open_history'], 'open_fresh': m['open_fresh']}})
+        if res.startswith('OK'):
+            continue
+        pred = lambda w: (w[0] % 2 != 0) == (w[1] % 2 != 0)
+        conf = fw.confirm_region([m['out_history'], m['out_fresh']], geom.closed_edges(m['subject']) + geom.closed_edges(m['clip']), 4, pred, fw.parse_fail(res))
+        if not conf:
+            r2 = fw.recheck_deeper(ctx['root'], ctx['outdir'], [cid]).get(cid, '')
+            if r2.startswith('OK'):
+                continue
+        v = {'key': LOBE_KEY if lobe_known(m, conf) else key, 'kind': 'history-region', 'detail': {'corpus_entry': entry, 'out_history': m['out_history'], 'out_fresh': m['out_fresh'], 'checker': res, 'confirmed': conf}}
+        if conf:
+            v['text'] = 'closed result after this history differs from a fresh engine\'s as a region at (%s, %s), windings %s' % (conf['point'][0], conf['point'][1], conf['windings'])
+        else:
+            v['text'] = 'history region-equality certificate rejected (%s)' % res[:80]
+            v['no_input'] = True
+        viol.append(v)
+    ctx['nontrivial'] += nt
+    return viol
+
+
 REGION_TRUST = [
     "the region checker is proved sound for every real point (Cert/RegionSound.v); what ties it to the code is that the implementation's actual outputs are fed to the extracted checker on every run (generated + corpus inputs): a defect no generated input triggers stays invisible",
     fw.REAL_AXIOMS,
@@ -983,6 +1157,23 @@ PROPS = {
                   'Model/Footprint.v: abstract interleaving model; its hypotheses (each call reads shared state and writes only private state) are what the regenerated facts support, not something proved of Go code',
                   'PARTIAL: data-race freedom under the Go memory model (allocator, runtime, govalues/decimal internals) is not modelled; it is exercised by go test -race with 32 goroutines x 18 API groups on shared read-only inputs, results compared with the sequential run'],
         'rule': 'per round: one random shared (subject, clip) input; 32 goroutines each run all 18 API groups (package functions and distinct engine / offset / rect-clip objects, including the functions that may return their argument) in rotated order under -race; evaluations = calls made concurrently; non-trivial = rounds x API groups',
+        'assumes': [],
+    },
+    'C11': {
+        'run': run_c11, 'level': 'proof',
+        'trust': ['Cert/RectLine.v checker proved sound for every real parameter of every input segment (Cert/RectLineSound.v); the implementation outputs are fed to the extracted checker on every run',
+                  fw.REAL_AXIOMS,
+                  'the reading of "covered": a point of an input segment is covered when its parameter lies between the projections of the two end points of a solution segment both of which are within 1 unit of that input segment (Cert/RectLine.v cov_intervals)',
+                  'modelled rather than verified: the line state machine of rect_clip.go is certified result-by-result'],
+        'rule': 'random polylines (2..7 points, a quarter of them 2-point segments) around rectangles on grids 10..1000, with lines along a side, through a corner and ending on a corner; joint result compared with per-line results; non-trivial = non-empty output',
+        'assumes': [],
+    },
+    'C12': {
+        'run': run_c12, 'level': 'proof',
+        'trust': ['Model/Engine.v: hand-written state machine of the engine between calls (flags, scratch lists abstracted to lengths) with the sweep as an oracle; tied to the code by the verif hook VerifScratch: after every history the real engine\'s scratch lengths and sticky flags are compared with the model\'s state',
+                  'the oracle hypotheses of C12_fresh_engine (flat output independent of the tree flag; dependence on the added paths only) are what the harness tests: every Execute after a random history is compared with a fresh engine (bytewise; by certified region equality / exact coverage comparison when paths were added in several calls)',
+                  'input immutability is checked dynamically (deep copies before/after every call in every harness), not proved'] + REGION_TRUST,
+        'rule': 'random histories of 3-11 operations (AddPaths subject/clip/open, Execute, ExecuteOC, ExecutePolyTree, random clip types and fill rules, pre-filled solution arguments) on Clipper64 and ClipperD, each execute compared with a fresh engine; ClipperOffset executed twice with different deltas and with a group added in between; evaluations = operations; non-trivial = histories',
         'assumes': [],
     },
     'C02': {
